@@ -24,7 +24,8 @@ type srvPkt struct {
 	rows  int
 	id    uint64
 	n     int
-	evInt bool // ProfileEvents value column is Int64 (else UInt64)
+	evInt bool     // ProfileEvents value column is Int64 (else UInt64)
+	items []string // ProfileEvents: "name/type/value/thread" per event; Log: "text/priority/thread" per entry (what the callbacks must receive)
 	chain []srvExc
 	bytes []byte
 	spec  string
@@ -76,6 +77,9 @@ func genEventsPkt(r *Rng, e srvEnc, n int, asInt bool) srvPkt {
 		{"name", "String", strCol(names...)}, {"value", vt, fixedCol(vt, 8, values...)},
 	}
 	p := srvPkt{kind: "e", cols: cols, rows: n, n: n, evInt: asInt}
+	for i := 0; i < n; i++ {
+		p.items = append(p.items, fmt.Sprintf("%s/%d/%d/%d", names[i], types[i], values[i], threads[i]))
+	}
 	p.bytes = e.dataPacket(14, cols, n)
 	p.spec = fmt.Sprintf("e:%d:%d", len(cols), n)
 	return p
@@ -94,6 +98,9 @@ func genLogsPkt(r *Rng, e srvEnc, n int) srvPkt {
 		{"priority", "Int8", fixedCol("Int8", 1, pr...)}, {"source", "String", strCol(s3...)}, {"text", "String", strCol(s4...)},
 	}
 	p := srvPkt{kind: "l", cols: cols, rows: n, n: n}
+	for i := 0; i < n; i++ {
+		p.items = append(p.items, fmt.Sprintf("%s/%d/%d", s4[i], pr[i], th[i]))
+	}
 	p.bytes = e.dataPacket(10, cols, n)
 	p.spec = fmt.Sprintf("l:%d:%d", len(cols), n)
 	return p
@@ -256,11 +263,12 @@ func (handlerTimeout) Is(target error) bool { return target == errHandler }
 
 // runDo executes the query against the script and returns the observed trace and result class.
 type c03Run struct {
-	trace   []string
-	result  string
-	err     error
-	snapBad string // first snapshot mismatch: the bound result columns did not hold the block's rows at callback time
-	elapsed time.Duration
+	trace      []string
+	result     string
+	err        error
+	contentBad string // first telemetry item (profile event / log entry) that differs from what the server sent
+	snapBad    string // first snapshot mismatch: the bound result columns did not hold the block's rows at callback time
+	elapsed    time.Duration
 }
 
 func classifyDoErr(err error) string {
@@ -353,27 +361,62 @@ func doScriptX(sc *simClient, s *respScript, h c03Handlers, segs []int, perPacke
 			return fail()
 		}
 	}
+	// the contents of the telemetry items, in the order the server sent them
+	var evItems, logItems []string
+	for _, p := range s.pkts {
+		switch p.kind {
+		case "e":
+			evItems = append(evItems, p.items...)
+		case "l":
+			logItems = append(logItems, p.items...)
+		}
+	}
+	evB, evS, lgB, lgS := 0, 0, 0, 0 // next expected item for the batch / single-item callbacks
+	note := func(what string, idx int, want []string, got string) {
+		if run.contentBad != "" {
+			return
+		}
+		if idx >= len(want) {
+			run.contentBad = fmt.Sprintf("%s #%d: %s delivered, the server sent only %d", what, idx, got, len(want))
+		} else if want[idx] != got {
+			run.contentBad = fmt.Sprintf("%s #%d: delivered %s, the server sent %s", what, idx, got, want[idx])
+		}
+	}
+	evStr := func(e ch.ProfileEvent) string { return fmt.Sprintf("%s/%d/%d/%d", e.Name, e.Type, e.Value, e.ThreadID) }
+	logStr := func(l ch.Log) string { return fmt.Sprintf("%s/%d/%d", l.Text, l.Priority, l.ThreadID) }
 	if h.flags[3] {
 		q.OnProfileEvents = func(ctx context.Context, e []ch.ProfileEvent) error {
 			run.trace = append(run.trace, fmt.Sprintf("E:%d", len(e)))
+			for _, x := range e {
+				note("profile event (batch)", evB, evItems, evStr(x))
+				evB++
+			}
 			return fail()
 		}
 	}
 	if h.flags[4] {
 		q.OnProfileEvent = func(ctx context.Context, e ch.ProfileEvent) error {
 			run.trace = append(run.trace, "e")
+			note("profile event", evS, evItems, evStr(e))
+			evS++
 			return fail()
 		}
 	}
 	if h.flags[5] {
 		q.OnLogs = func(ctx context.Context, l []ch.Log) error {
 			run.trace = append(run.trace, fmt.Sprintf("L:%d", len(l)))
+			for _, x := range l {
+				note("log entry (batch)", lgB, logItems, logStr(x))
+				lgB++
+			}
 			return fail()
 		}
 	}
 	if h.flags[6] {
 		q.OnLog = func(ctx context.Context, l ch.Log) error {
 			run.trace = append(run.trace, "l")
+			note("log entry", lgS, logItems, logStr(l))
+			lgS++
 			return fail()
 		}
 	}
@@ -568,6 +611,9 @@ func c03Case(c *Ctx, r *Rng, o simOpts) {
 	wantTr, wantRes := expectedTrace(s, h)
 	want := strings.Join(wantTr, " ")
 	cs["got_trace"], cs["got_result"], cs["error"] = got, run.result, fmt.Sprint(run.err)
+	if run.contentBad != "" {
+		R.Violate(Violation{Kind: "oracle", Key: "delivery-content", What: "a telemetry callback received something else than the server sent: " + run.contentBad, Case: cs})
+	}
 	if run.snapBad != "" {
 		R.Violate(Violation{Kind: "oracle", Key: "result-snapshot", What: "at callback time the bound result columns did not hold the block's rows: " + run.snapBad, Case: cs})
 		return
